@@ -25,6 +25,7 @@ type pathCase struct {
 	lextras bool // some of the additional files are symbolic links
 	join    bool // the input reaches the command through a joined in-port ({i:in|join: })
 	stream  bool // the process also has a streaming out-port (consumed by a second process)
+	tagged  bool // the input carries three tags (a tagging component sits in front of the process)
 	dangle  bool // a dangling symbolic link (left by an earlier run whose target is gone) sits at the declared output path
 }
 
@@ -63,7 +64,7 @@ func oddSegment(p string) bool {
 func c13(args []string) {
 	c := chk.New("C13", "exploration", args)
 	c.Build(false)
-	c.Rule("one-task workflows, one child per case, each in a fresh directory three levels below its scratch root: the output path and the input path are drawn from the grammar prefix {'', ./, ../, ../../, ABS/} x 0-2 directory segments {d, d.x, a-b_c, 0, ..., d.., ..d, __parent__, __fsroot__, x__parent__y, .hid} x file names {f, f.txt, .h, f..g, __parent__, a__fsroot__b, ..x} (thorough: every grammar path as output and as input; quick: a sample) plus random long paths, input paths that leave a symlinked directory with '..' (a decoy file sits at the lexically cleaned path) additional files that are symbolic links, inputs that reach the command through a joined in-port (absolute / parent-relative members), processes that have a streaming out-port beside the judged file output, and a dangling symbolic link already sitting at the declared output path; destination directories of ../ and absolute outputs are pre-created, sub-directories of the working directory are not; one case in five is a Go function interpreting the same protocol in-process, a further set are Go functions that write through the documented OutIP(port).Write() API; half of the command cases create additional files (one in a not yet existing sub-directory, one sorting after it); oracle: after exit 0 the unique content written at the output placeholder is found at exactly clean(wd/P) (or P if absolute) and nowhere else below the scratch root, the command could read its input through the input placeholder, every additional file is at the same relative place under the working directory. distinct_nontrivial = distinct (output path, input path, extras, command/Go function) cases that ran to completion")
+	c.Rule("(every fifth plain case carries an extension spec on the out-port placeholder, {o:out|.dat}, beside its SetOut pattern; a family of cases has a tagging component in front so that the input carries three tags) one-task workflows, one child per case, each in a fresh directory three levels below its scratch root: the output path and the input path are drawn from the grammar prefix {'', ./, ../, ../../, ABS/} x 0-2 directory segments {d, d.x, a-b_c, 0, ..., d.., ..d, __parent__, __fsroot__, x__parent__y, .hid} x file names {f, f.txt, .h, f..g, __parent__, a__fsroot__b, ..x} (thorough: every grammar path as output and as input; quick: a sample) plus random long paths, input paths that leave a symlinked directory with '..' (a decoy file sits at the lexically cleaned path) additional files that are symbolic links, inputs that reach the command through a joined in-port (absolute / parent-relative members), processes that have a streaming out-port beside the judged file output, and a dangling symbolic link already sitting at the declared output path; destination directories of ../ and absolute outputs are pre-created, sub-directories of the working directory are not; one case in five is a Go function interpreting the same protocol in-process, a further set are Go functions that write through the documented OutIP(port).Write() API; half of the command cases create additional files (one in a not yet existing sub-directory, one sorting after it); oracle: after exit 0 the unique content written at the output placeholder is found at exactly clean(wd/P) (or P if absolute) and nowhere else below the scratch root, the command could read its input through the input placeholder, every additional file is at the same relative place under the working directory. distinct_nontrivial = distinct (output path, input path, extras, command/Go function) cases that ran to completion")
 	c.Assume("scratch root, working directory and absolute area are on one file system", "paths with a directory segment ending in '..' (fixed defect 133a9ef: '../' was matched as a substring) carry their own signature suffix so that a regression there is told apart from other failures")
 	rng := c.Rand("c13")
 	g := c13Grammar()
@@ -137,6 +138,10 @@ func c13(args []string) {
 	for k := 0; k < c.Pick(16, 60); k++ {
 		cases = append(cases, pathCase{out: []string{"d/o.txt", "../o.txt", "ABS/x/o.txt", "d.x/0/o.txt", "ABS/o.txt", "./a-b_c/o.txt"}[k%6], in: "i.txt", stream: true, extras: k%4 == 3})
 	}
+	// inputs that carry several tags (the task identity, hence its working directory, depends on them)
+	for k := 0; k < c.Pick(8, 24); k++ {
+		cases = append(cases, pathCase{out: []string{"o.txt", "d/e/o.txt", "../o.txt", "ABS/x/o.txt"}[k%4], in: []string{"i.txt", "d/i.txt", "../up/i.txt"}[k%3], tagged: true, extras: k%2 == 0, gof: k%5 == 4})
+	}
 	run.Parallel(len(cases), func(i int) {
 		pc := cases[i]
 		root := c.CaseDir()
@@ -180,6 +185,10 @@ func c13(args []string) {
 		s.Procs = append(s.Procs, &spec.Proc{Name: "src", Kind: spec.KFileSource, Files: []string{in}},
 			&spec.Proc{Name: "P", Kind: kind, WriteAPI: pc.wapi, Cmd: spec.BuildCmd("P", []spec.PortDecl{{Name: "in"}}, []spec.PortDecl{{Name: "out"}}, nil, nil, opts), Outs: []*spec.Out{{Port: "out", Pattern: out}}})
 		s.Conns = append(s.Conns, &spec.Conn{From: "src.out", To: "P.in"})
+		if i%5 == 2 && !pc.join && !pc.stream {
+			// the placeholder carries an extension spec ({o:out|.dat}); with a SetOut pattern it changes nothing
+			s.Proc("P").Cmd = spec.BuildCmd("P", []spec.PortDecl{{Name: "in"}}, []spec.PortDecl{{Name: "out", Ext: "dat"}}, nil, nil, opts)
+		}
 		if pc.join {
 			p := s.Proc("P")
 			p.Cmd = spec.BuildCmd("P", []spec.PortDecl{{Name: "in", Join: "space"}}, []spec.PortDecl{{Name: "out"}}, nil, nil, opts)
@@ -193,6 +202,10 @@ func c13(args []string) {
 				Outs: []*spec.Out{{Port: "out", Pattern: "cons.out"}}})
 			s.Conns = append(s.Conns, &spec.Conn{From: "P.sout", To: "CONS.in"})
 		}
+		if pc.tagged {
+			s.Procs = append(s.Procs, &spec.Proc{Name: "TAG", Kind: spec.KMapToTags, Tags: []*spec.TagRule{{Key: "sample", Rule: "stem"}, {Key: "kind", Rule: "ext"}, {Key: "batch", Rule: "const:b7"}}})
+			s.Conns = []*spec.Conn{{From: "src.out", To: "TAG.in"}, {From: "TAG.out", To: "P.in"}}
+		}
 		if pc.dangle {
 			s.Links = map[string]string{out: "purged-scratch/result-of-an-earlier-run"}
 		}
@@ -204,7 +217,7 @@ func c13(args []string) {
 		cs := &run.Case{Root: root, Bin: c.Bin, Spec: s, WdRel: wdRel, Env: map[string]string{"SCIPIPE_BUFSIZE": "4"}}
 		c.Eval(1)
 		res := cs.Run()
-		desc := map[string]interface{}{"output_path": pc.out, "input_path": pc.in, "extras": pc.extras, "gofunc": pc.gof, "write_api": pc.wapi, "input_through_symlinked_dir": pc.link, "symlink_extras": pc.lextras, "joined_input": pc.join, "streaming_port_beside": pc.stream, "dangling_symlink_at_output_path": pc.dangle, "spec": s}
+		desc := map[string]interface{}{"output_path": pc.out, "input_path": pc.in, "extras": pc.extras, "gofunc": pc.gof, "write_api": pc.wapi, "input_through_symlinked_dir": pc.link, "symlink_extras": pc.lextras, "joined_input": pc.join, "streaming_port_beside": pc.stream, "dangling_symlink_at_output_path": pc.dangle, "input_with_three_tags": pc.tagged, "spec": s}
 		known := oddSegment(pc.out) || oddSegment(pc.in)
 		sigSfx := ""
 		if known {
@@ -279,7 +292,7 @@ func c13(args []string) {
 			c.Violation("file-not-at-declared-path"+sigSfx, fmt.Sprintf("output path %q, input path %q: %s", pc.out, pc.in, strings.Join(ps, "; ")), desc)
 			return
 		}
-		c.Nontrivial(fmt.Sprintf("%s|%s|%v|%v|%v|%v|%v", pc.out, pc.in, pc.extras, pc.gof, pc.wapi, pc.link, pc.lextras) + fmt.Sprintf("|%v|%v|%v|%d", pc.join, pc.stream, pc.dangle, i%6))
+		c.Nontrivial(fmt.Sprintf("%s|%s|%v|%v|%v|%v|%v", pc.out, pc.in, pc.extras, pc.gof, pc.wapi, pc.link, pc.lextras) + fmt.Sprintf("|%v|%v|%v|%v|%d", pc.join, pc.stream, pc.dangle, pc.tagged, i%6))
 		c.Count("cases_go_function_write_api", map[bool]int{true: 1, false: 0}[pc.wapi])
 		c.Count("cases_with_additional_files", map[bool]int{true: 1, false: 0}[pc.extras])
 		if i%80 == 0 {
